@@ -1,6 +1,7 @@
 package sim
 
 import (
+	"encoding/binary"
 	"errors"
 	"fmt"
 	"io"
@@ -151,15 +152,28 @@ type streamEnd struct {
 	done    chan struct{}
 	wt      tubes.Tube // the writing end
 	rt      tubes.Tube // the reading end
+	// acknowledgement runs seen on the wire towards the writing and the reading end (see gaveUp)
+	dupRuns      func() (int, int)
+	whiteBoxOnly bool
 }
 
 // gaveUp: the listed finding D19 — the sender of one end of the tube counted more than 100 duplicate
 // acknowledgements in a row and tore the tube down.
 func (e *streamEnd) gaveUp() string {
-	if (e.wt != nil && tubes.VerifDupAckLimitHit(e.wt)) || (e.rt != nil && tubes.VerifDupAckLimitHit(e.rt)) {
-		return "/sender-gave-up-after-100-duplicate-acks"
+	hitW := e.wt != nil && tubes.VerifDupAckLimitHit(e.wt)
+	hitR := e.rt != nil && tubes.VerifDupAckLimitHit(e.rt)
+	if !hitW && !hitR {
+		return ""
 	}
-	return ""
+	if !e.whiteBoxOnly && e.dupRuns != nil {
+		// the finding is about more than 100 duplicates IN A ROW; a sender whose counter says so although the
+		// wire never carried such a run is something else
+		runW, runR := e.dupRuns()
+		if !(hitW && runW > 100) && !(hitR && runR > 100) {
+			return ""
+		}
+	}
+	return "/sender-gave-up-after-100-duplicate-acks"
 }
 
 func scTubeStream(r *Run) {
@@ -264,7 +278,53 @@ func scTubeStream(r *Run) {
 
 	var ends []*streamEnd
 	var wg sync.WaitGroup
-	type pair struct{ a, b net.Conn }
+	type pair struct {
+		a, b     net.Conn
+		epA, epB *Endpoint // the endpoints under the muxers of a and b
+	}
+	// an independent count of what the listed finding D19 is about: acknowledgements that repeat the highest
+	// number seen so far, in a row, per receiving endpoint and tube (plain pairs only: over a real transport
+	// the frames are encrypted)
+	type dupKey struct {
+		ep *Endpoint
+		id byte
+	}
+	type dupState struct {
+		cur      uint32
+		seen     bool
+		run, max int
+	}
+	dups := map[dupKey]*dupState{}
+	if !stack {
+		n.OnDeliver = func(d *Dgram, ep *Endpoint) {
+			b := d.Data
+			if len(b) < 12 || b[1]&(1<<2) == 0 || b[1]&3 != 0 { // reliable, not an initiate frame
+				return
+			}
+			k := dupKey{ep, b[0]}
+			st := dups[k]
+			if st == nil {
+				st = &dupState{}
+				dups[k] = st
+			}
+			ack := binary.BigEndian.Uint32(b[4:8])
+			switch {
+			case !st.seen || int32(ack-st.cur) > 0:
+				st.cur, st.seen, st.run = ack, true, 0
+			case ack == st.cur:
+				st.run++
+				if st.run > st.max {
+					st.max = st.run
+				}
+			}
+		}
+	}
+	dupRun := func(ep *Endpoint, t tubes.Tube) int {
+		if st := dups[dupKey{ep, t.GetID()}]; st != nil {
+			return st.max
+		}
+		return 0
+	}
 	var pairs []pair
 	// accept loop on both sides
 	accepted := make(chan tubes.Tube, 16)
@@ -302,7 +362,11 @@ func scTubeStream(r *Run) {
 		if peer.GetID() != t.GetID() || !peer.IsReliable() {
 			r.Violate("C08/accept-mismatch", "opened reliable tube %d, peer accepted tube %d reliable=%v", t.GetID(), peer.GetID(), peer.IsReliable())
 		}
-		pairs = append(pairs, pair{t, peer})
+		epT, epP := mp.EA, mp.EB
+		if who == "B" {
+			epT, epP = mp.EB, mp.EA
+		}
+		pairs = append(pairs, pair{t, peer, epT, epP})
 		// a long-lived tube: the sequence space of both ends is moved close to (or across) the 32-bit wrap
 		// of the frame numbers, or to another large value, before any data flows
 		if r.Intn("seq", 5) == 0 {
@@ -356,6 +420,12 @@ func scTubeStream(r *Run) {
 			e := &streamEnd{name: fmt.Sprintf("tube%d.dir%d", i, dir), salt: r.U64("salt"), done: make(chan struct{})}
 			e.wt, _ = w.(tubes.Tube)
 			e.rt, _ = rd.(tubes.Tube)
+			epW, epR := p.epA, p.epB
+			if dir == 1 {
+				epW, epR = p.epB, p.epA
+			}
+			e.dupRuns = func() (int, int) { return dupRun(epW, e.wt), dupRun(epR, e.rt) }
+			e.whiteBoxOnly = stack
 			switch r.Intn("cfg", 8) {
 			case 0:
 				e.total = 0
